@@ -112,6 +112,7 @@ def run(ctx):
     c03_3(ctx, fail_dir)
     c03_5(ctx)
     c03_6(ctx)
+    c03_3b(ctx)
 
 
 def c03_2(ctx):
@@ -270,6 +271,38 @@ def c03_6(ctx):
         ctx.ob(R, "validate:ephemeral-rules", len(edges) >= 4 and len(rejecting) >= 2,
                "validate_conditions rejects a relative condition on an ephemeral coin and ASSERT_EPHEMERAL on a non-ephemeral one",
                found={"edges": len(edges), "rejecting": len(rejecting)})
+
+
+LOCK_FIELDS = ("height_absolute", "seconds_absolute", "before_height_absolute", "before_seconds_absolute", "height_relative",
+               "seconds_relative", "before_height_relative", "before_seconds_relative", "birth_height", "birth_seconds")
+
+
+def c03_3b(ctx):
+    """'rejected at parse time as impossible ONLY IF no chain state could satisfy': the deferred validation tests the lock
+    aggregates in exactly two ways -- before_X_absolute <= X_absolute (both folded bundle-wide, so no state has
+    X_abs <= state < before_X_abs) -- and in no other (relative and birth values depend on each coin's own confirmation
+    data, which validate_conditions does not see; any guard over them rejects satisfiable bundles)."""
+    R = "C03.3"
+    vb = U.body(ctx, R, "chia_consensus::conditions::validate_conditions")
+    if not vb:
+        return
+    seen = set()
+    for node in vb.edge_info:
+        if vb.edge_info[node][0] not in vb.reach:
+            continue
+        t, lab = vb.edge_condition(node)
+        s_ = str(apnf.N(t))
+        if any(("'." + f + "'") in s_ for f in LOCK_FIELDS):
+            seen.add((s_, str(lab)))
+    exp = set()
+    for k in ("height", "seconds"):
+        pres = "('.before_%s_absolute', 'ret')" % k
+        le = "('Le', ('.before_%s_absolute', 'ret'), ('.%s_absolute', 'ret'))" % (k, k)
+        exp |= {(pres, "('is', ('None',))"), (pres, "('is', ('Some',))"), (le, "('bool', False)"), (le, "('bool', True)")}
+    ctx.ob(R, "validate:lock-guards-exact", seen == exp,
+           "validate_conditions branches on lock aggregates only through `before_X_absolute is Some` and `before_X_absolute <= X_absolute`",
+           found=sorted(seen ^ exp)[:6], where=vb.fn.sp)
+    E.is_ephemeral_exact(ctx, "C03.6")
 
 
 def _leads_to_err(b, e):
